@@ -20,6 +20,7 @@ import SimVerif.Props.C03
 import SimVerif.Props.C14
 import SimVerif.Lemmas.HandlersKernel
 import SimVerif.Lemmas.HandlersTcpSys
+import SimVerif.Lemmas.HandlersWire
 
 namespace SimVerif
 
@@ -587,6 +588,38 @@ theorem C04_at_most_once_acceptor (tp : TParams) (n0 : NetSt) (hw : TWf n0) (hc 
     unfold TcpSock.slotIds; rw [hop]; simp
   exact hn.2.2 op.h (List.mem_append_left _ hin) op.h hmem rfl
 
+/-- **The packet clause derived from a promise of the environment.** `HTS.ok` keeps one clause
+    about channels: the packet handed to `.incoming` carries no channel id or a valid one. It
+    follows from a promise that does not mention the channel table at all (`HTS.okRunSent`): the
+    network hands in — delivers, or reports as dropped (label `.dropped`, tail-drops inside a
+    write) — only packets whose channel id was carried by some packet forwarded before (ghost
+    list `w`, starting from the ids `w0` in flight initially). Invariant (`WireInv`): accept
+    queues, retransmission queues and the wire hold valid ids only — `internal_connect` puts the
+    id it has just allocated into the SYN, `check_accept_queue` puts an id it has just looked up
+    into the SYN-ACK, every other packet the sockets build carries none, and a retransmitted
+    packet is one the environment reported as dropped. -/
+theorem C04_packet_clause_derived (tp : TParams) (n0 : NetSt) (w0 : List Nat) (hc : ConnsOk n0) (hr : ResendOk n0)
+    (hw0 : ∀ c ∈ w0, c < n0.chans.length) (ls : List h4_HLbl)
+    (h : HTS.okRunSent tp { n := n0, started := allTcpIds n0 } w0 ls) :
+    HTS.okRun tp { n := n0, started := allTcpIds n0 } ls :=
+  okRun_of_okRunSent tp ls _ w0 ⟨hc, hr, hw0⟩ h
+
+/-- none discarded / at most once under the environment's promise instead of the packet clause -/
+theorem C04_none_discarded_tcp_sent (tp : TParams) (n0 : NetSt) (w0 : List Nat) (hw : TWf n0) (hc : ConnsOk n0)
+    (hr : ResendOk n0) (hw0 : ∀ c ∈ w0, c < n0.chans.length) (ls : List h4_HLbl)
+    (hok : HTS.okRunSent tp { n := n0, started := allTcpIds n0 } w0 ls) :
+    let s := HTS.run tp { n := n0, started := allTcpIds n0 } ls
+    (allTcpIds s.n ++ s.parked ++ s.ids).Perm s.started ∧ TWf s.n ∧ ConnsOk s.n :=
+  C04_none_discarded_tcp tp n0 hw hc ls (C04_packet_clause_derived tp n0 w0 hc hr hw0 ls hok)
+
+theorem C04_at_most_once_tcp_sent (tp : TParams) (n0 : NetSt) (w0 : List Nat) (hw : TWf n0) (hc : ConnsOk n0)
+    (hr : ResendOk n0) (hw0 : ∀ c ∈ w0, c < n0.chans.length) (ls : List h4_HLbl)
+    (hok : HTS.okRunSent tp { n := n0, started := allTcpIds n0 } w0 ls)
+    (hf : (allTcpIds n0 ++ ls.filterMap h4_HLbl.newId?).Nodup) :
+    let s := HTS.run tp { n := n0, started := allTcpIds n0 } ls
+    (allTcpIds s.n ++ s.parked ++ s.ids).Nodup :=
+  C04_at_most_once_tcp tp n0 hw hc ls (C04_packet_clause_derived tp n0 w0 hc hr hw0 ls hok) hf
+
 /-- **Timers**: every wait completes at most once (C03). -/
 theorem C04_at_most_once_timer (ls : List Lbl) (hf : FreshWaits [] ls) :
     (((runLbls repaired {} ls).ran.filter (fun x => x.1.tm)).map (fun x => x.1.h)).Nodup :=
@@ -705,6 +738,30 @@ example := C04_at_most_once_tcp {} tcp0 (TWfb_sound (by decide)) (ConnsOkb_sound
   (HTS.okRunb_sound _ _ _ (by decide)) (by decide)
 example := C04_none_discarded_tcp {} tcp0 (TWfb_sound (by decide)) (ConnsOkb_sound (by decide)) tcpHist
   (HTS.okRunb_sound _ _ _ (by decide))
+
+/-- the same history under the environment's promise: initially the SYN of `s1`'s connect
+    (channel 0) is in flight, `w0 = [0]`; the SYN-ACK the acceptor sends carries channel 0 again -/
+example : HTS.okRunSentb {} { n := tcp0, started := allTcpIds tcp0 } [0] tcpHist = true := by decide
+example : ResendOkb tcp0 = true := by decide
+example := C04_at_most_once_tcp_sent {} tcp0 [0] (TWfb_sound (by decide)) (ConnsOkb_sound (by decide))
+  (ResendOkb_sound (by decide)) (by decide) tcpHist (HTS.okRunSentb_sound _ _ _ _ (by decide)) (by decide)
+/-- a history with a first-hop tail-drop inside the write loop, a retransmission, a drop
+    notification through the forwarder and a second retransmission: the dropped segment carries
+    no channel id, so the environment's promise holds for the drop labels too -/
+def seg0 : Pkt := { id := 0, ty := .payload, len := 3, ovh := 40, payload := [1, 2, 3], hasDrop := true, dropFwd := some 0 }
+def tcpHist3 : List h4_HLbl :=
+  [.accept 0 "a0" (.into 8 "s3" true), .incoming 5 "a0" syn, .incoming 9 "s1" synack,
+   .write "s1" (wr 12), .runWrite "s1" (some 12) [.seg 9 ["q1", "@1"] [1, 2, 3], .drop seg0] (.ok 3),
+   .resendOne 10 "s1", .dropped "s1" seg0, .resendOne 11 "s1"]
+
+example : HTS.okRunSentb {} { n := tcp0, started := allTcpIds tcp0 } [0] tcpHist3 = true := by decide
+example : ((HTS.run {} { n := tcp0, started := allTcpIds tcp0 } (tcpHist3.take 7)).n.tcp? "s1").map (·.resend.length)
+    = some 1 := by decide
+example := C04_none_discarded_tcp_sent {} tcp0 [0] (TWfb_sound (by decide)) (ConnsOkb_sound (by decide))
+  (ResendOkb_sound (by decide)) (by decide) tcpHist3 (HTS.okRunSentb_sound _ _ _ _ (by decide))
+
+/-- a SYN whose channel id was never on the wire is NOT something the environment may hand in -/
+example : HTS.okRunSentb {} { n := tcp0, started := allTcpIds tcp0 } [] [.incoming 5 "a0" syn] = false := by decide
 
 /-- the invariant is not vacuous: while the accept `.into 8` is being completed by the SYN the
     queue held channel 0; a second SYN with no accept outstanding stays queued, and the queue
